@@ -7,6 +7,9 @@ hook sits at that place.
 
 Tokens (in the order they occur in the function body, comments / strings / verif-hook statements removed):
   lockCached.<m>        `cached_env.lock().<m>(`            <m> = how the LockResult is consumed; `unwrap`
+  lockWatcher.<m>       `watcher.lock().<m>(`               the fs watcher's own mutex (taken AFTER the notifier
+                                                            mutex was released: calls into the watcher wait for
+                                                            its thread, which takes the notifier mutex)
   lockHandle.<m>        any other `.lock().<m>(`            means a poisoned mutex panics (notifier mutex)
   upgrade               `self.handle()` / `.upgrade()`     (weak -> strong; None = dead notifier)
   flag=true|false       `should_reload = <literal>`
@@ -34,6 +37,7 @@ SRC = "minijinja-autoreload/src/lib.rs"
 
 TOKENS = [
     ("lockCached", r"cached_env\s*\.\s*lock\s*\(\)(?:\s*\.\s*(\w+))?"),
+    ("lockWatcher", r"\bwatcher\s*\.\s*lock\s*\(\)(?:\s*\.\s*(\w+))?"),
     ("lockHandle", r"\.\s*lock\s*\(\)(?:\s*\.\s*(\w+))?"),
     ("upgrade", r"self\s*\.\s*handle\s*\(\)|\.\s*upgrade\s*\(\)"),
     ("flagTake", r"(?:take|replace|swap)\s*\(\s*&mut\s+[^;]*?\bshould_reload\b(?!_)"),
@@ -153,7 +157,7 @@ def _tokens(body):
                 tok = "flag=<expr>"
             elif name == "fastAssign":
                 tok = "fast=" + (m.group(1) if m.group(1) in ("true", "false", "yes") else "<expr>")
-            elif name in ("lockCached", "lockHandle"):
+            elif name in ("lockCached", "lockHandle", "lockWatcher"):
                 # how the LockResult is consumed: `.unwrap()` = a poisoned mutex panics
                 tok = name + "." + (m.group(1) or "<unconsumed>")
             elif name == "call":
